@@ -8,6 +8,7 @@ import (
 	"go/constant"
 	"go/token"
 	"go/types"
+	"sort"
 	"strings"
 
 	"golang.org/x/tools/go/ssa"
@@ -361,9 +362,12 @@ func c18AcceptCase(w *World, fi *FnInfo, cs c18Case, paths map[*ssa.Function]str
 // ---------- the unknown-field scan: library forms ----------------------------------------------------------------------
 
 // c18ConstStringList: v is (a load of) a list of string constants that nothing can change: a slice literal of constants
-// used in place, or a package-level variable initialised once with such a literal and otherwise only read through
-// len / range / index reads / slices.Contains. Returns its elements.
-func c18ConstStringList(w *World, v ssa.Value) ([]string, bool) {
+// used in place or held in a local, or a package-level variable initialised once with such a literal, or a slice of an
+// array of constants; in each case only read: len / range / index reads / slices.Contains, Index, BinarySearch / a module
+// helper that only reads its parameter. bind: v may be a parameter of the helper under analysis that stands for an
+// argument of the call (see c18Bind). Returns its elements.
+func c18ConstStringList(w *World, v ssa.Value, bind c18Bind) ([]string, bool) {
+	v = bind.of(v)
 	if u, ok := v.(*ssa.UnOp); ok && u.Op == token.MUL {
 		g, ok := u.X.(*ssa.Global)
 		if !ok || g.Pkg == nil {
@@ -409,8 +413,23 @@ func c18ConstStringList(w *World, v ssa.Value) ([]string, bool) {
 		}
 		return c18SliceLitStrings(init)
 	}
-	return c18SliceLitStrings(v)
+	// a literal of the function itself: its elements are constants and nothing writes through the slice value
+	// (the literal may be held in a local and used several times; it must then only be read)
+	if l, ok := c18SliceLitStrings(v); ok {
+		if !c18ReadOnlyUses(v, 0) {
+			return nil, false
+		}
+		return l, true
+	}
+	// a slice of an array of constants (`known[:]`), see c18ConstArray
+	if sl, ok := v.(*ssa.Slice); ok && c18ReadOnlyUses(sl, 0) {
+		return c18ConstArray(w, sl.X)
+	}
+	return nil, false
 }
+
+// c18ListReaders: library functions that only read the list they are handed as first argument.
+var c18ListReaders = map[string]bool{"slices.Contains": true, "slices.Index": true, "slices.BinarySearch": true, "sort.SearchStrings": true}
 
 // c18ReadOnlyUses: the slice value is only measured, ranged over, read by index or handed to slices.Contains.
 func c18ReadOnlyUses(v ssa.Value, depth int) bool {
@@ -431,7 +450,11 @@ func c18ReadOnlyUses(v ssa.Value, depth int) bool {
 			}
 		case *ssa.Call:
 			n := calleeName(x)
-			if n == "builtin:len" || (n == "slices.Contains" && len(x.Call.Args) == 2 && x.Call.Args[0] == v) {
+			if n == "builtin:len" || (c18ListReaders[n] && len(x.Call.Args) == 2 && x.Call.Args[0] == v && x.Call.Args[1] != v) {
+				continue
+			}
+			// handed to a module helper that only reads it (`contains(known, key)`)
+			if c18ReadOnlyCallee(x, v, depth, c18ReadOnlyUses) {
 				continue
 			}
 			return false
@@ -529,7 +552,7 @@ func c18MembershipPredicate(w *World, v ssa.Value) ([]string, bool) {
 		if !ok || calleeName(call) != "slices.Contains" || len(call.Call.Args) != 2 || call.Call.Args[1] != ssa.Value(pred.Params[0]) {
 			return nil, false
 		}
-		l, ok := c18ConstStringList(w, call.Call.Args[0])
+		l, ok := c18ConstStringList(w, call.Call.Args[0], nil)
 		if !ok || (n > 0 && strings.Join(l, "\x00") != strings.Join(list, "\x00")) {
 			return nil, false
 		}
@@ -581,15 +604,69 @@ func c18HasKeyLoop(g *ssa.Function) bool {
 //	slices.AppendSeq(x, maps.Keys(m))     keys(x) ∪ {m}
 //	slices.Collect(maps.Keys(m))          {m}
 //	h(m), h a module function             {m}   (h is held to "reports every key" by scan/keyset-complete)
+//	h(…, m, …), h a filtering collector   {m}   minus the constants of h's filter (see c18Collectors)
 //
 // Anything else contributes nothing (a level that is not seen is reported as missing).
-func c18ReportedMaps(w *World, v ssa.Value, out map[ssa.Value]string, depth int) {
+
+// c18Collectors: the filter-while-collecting loop of a level may sit in a helper of the scan (`unknownKeys(descriptor,
+// known)` once per level) instead of in the scan itself. The helper is judged by the same decision as a loop of the
+// scan (c18KeyCollector L1–L6, with the map PARAMETER as the map and the helper's other parameters standing for the
+// arguments of the call, so that a table of known keys handed to the helper is judged as the caller's table): its
+// result has an element for every key of the argument map except the constants of its filter. filter: those constants
+// per argument map (they are keys taken out of the report at that map's level); fns: the helpers accepted this way.
+type c18Collectors struct {
+	filter map[ssa.Value][]string
+	fns    map[*ssa.Function]bool
+}
+
+func c18ReportedMaps(w *World, v ssa.Value, out map[ssa.Value]string, cols *c18Collectors, depth int) {
+	c18ReportedInto(w, v, out, cols, depth, map[*ssa.Phi]bool{})
+}
+
+// c18ReportedInto adds to out the maps all of whose keys are elements of v. top: v is a phi under evaluation (a
+// loop-carried accumulator seen from inside its own cycle), which stands for "every map" in the intersection below.
+//
+//	phi(e1, …, en)                        ∩ keys(e_i)   — whichever edge was taken, the value holds these maps' keys.
+//
+// For the accumulator of a loop, `acc = phi(init, append(acc, k))`, this gives keys(init): what was gathered before the
+// loop is still there after it (induction over the iterations: append only grows its first operand).
+func c18ReportedInto(w *World, v ssa.Value, out map[ssa.Value]string, cols *c18Collectors, depth int, busy map[*ssa.Phi]bool) (top bool) {
 	if depth > 8 {
-		return
+		return false
+	}
+	if ph, isPhi := v.(*ssa.Phi); isPhi {
+		if busy[ph] {
+			return true
+		}
+		busy[ph] = true
+		defer delete(busy, ph)
+		var acc map[ssa.Value]string
+		for _, e := range ph.Edges {
+			sub := map[ssa.Value]string{}
+			if c18ReportedInto(w, e, sub, cols, depth+1, busy) {
+				continue
+			}
+			if acc == nil {
+				acc = sub
+				continue
+			}
+			for m := range acc {
+				if _, both := sub[m]; !both {
+					delete(acc, m)
+				}
+			}
+		}
+		if acc == nil {
+			return true
+		}
+		for m, how := range acc {
+			out[m] = how
+		}
+		return false
 	}
 	call, ok := v.(*ssa.Call)
 	if !ok {
-		return
+		return false
 	}
 	seqMap := func(s ssa.Value) ssa.Value {
 		if kc, ok := s.(*ssa.Call); ok && calleeName(kc) == "maps.Keys" && len(kc.Call.Args) == 1 {
@@ -600,24 +677,669 @@ func c18ReportedMaps(w *World, v ssa.Value, out map[ssa.Value]string, depth int)
 	switch n := calleeName(call); {
 	case n == "builtin:append":
 		for _, a := range call.Call.Args {
-			c18ReportedMaps(w, a, out, depth+1)
+			if c18ReportedInto(w, a, out, cols, depth+1, busy) {
+				top = true
+			}
 		}
+		return top
 	case n == "slices.AppendSeq" && len(call.Call.Args) == 2:
-		c18ReportedMaps(w, call.Call.Args[0], out, depth+1)
+		top = c18ReportedInto(w, call.Call.Args[0], out, cols, depth+1, busy)
 		if m := seqMap(call.Call.Args[1]); m != nil {
 			out[m] = "library"
 		}
+		return top
 	case n == "slices.Collect" && len(call.Call.Args) == 1:
 		if m := seqMap(call.Call.Args[0]); m != nil {
 			out[m] = "library"
 		}
 	default:
-		if g := staticCallee(call); g != nil && w.IsProductFn(g) && len(call.Call.Args) == 1 {
+		// a collector first (a plain key-set helper is one with an empty filter); a helper that is not one but ranges over
+		// its map parameter is still counted as reporting that map and is then held to "appends every key
+		// unconditionally" by scan/keyset-complete, which tells what is wrong with it
+		g := staticCallee(call)
+		if g == nil || !w.IsProductFn(g) {
+			return false
+		}
+		found := false
+		if g.Blocks != nil && len(g.FreeVars) == 0 && len(call.Call.Args) == len(g.Params) && cols != nil {
+			bind := c18Bind{}
+			for i, a := range call.Call.Args {
+				bind[g.Params[i]] = a
+			}
+			for i, a := range call.Call.Args {
+				if _, isMap := a.Type().Underlying().(*types.Map); !isMap {
+					continue
+				}
+				p := ssa.Value(g.Params[i])
+				if col := c18KeyCollector(w, g, func(x ssa.Value) bool { return x == p }, bind); col.ok {
+					m := c18MapOrigin(a)
+					out[m] = "collector"
+					cols.filter[m] = append(cols.filter[m], col.filter...)
+					cols.fns[g] = true
+					found = true
+				}
+			}
+		}
+		if !found && len(call.Call.Args) == 1 {
 			if _, isMap := call.Call.Args[0].Type().Underlying().(*types.Map); isMap && c18HasKeyLoop(g) {
 				out[c18MapOrigin(call.Call.Args[0])] = "helper"
 			}
 		}
 	}
+	return false
+}
+
+// ---------- constant key tables -----------------------------------------------------------------------------------------
+//
+// The known keys may be spelled in the code that tests them (`switch`, `==` chain) or be held in a TABLE that the code
+// consults: a slice, an array or a map (set), local or package-level, tested by slices.Contains / slices.Index /
+// slices.BinarySearch, by a lookup `table[key]` (comma-ok, or the value of a bool-valued set), by a hand-written loop
+// `for _, n := range table { if n == key … }`, or used to drive the removal (`for _, n := range table { delete(m, n) }`).
+// For the property the spelling is irrelevant: what matters is the SET of strings the table can hold while the
+// program runs. The helpers below return a finite set of string constants that is a superset of that set
+// at every moment of every execution; the caller holds every element of it to the condition on known keys (JSON name of
+// an ocispec.Descriptor field / "targetArtifact"). A superset is the safe direction: a key is taken out of the report
+// only if it is in the table, hence only if it is one of the constants returned.
+
+// c18Bind: what the parameters of a helper stand for during the one call under analysis (parameter → argument).
+type c18Bind map[ssa.Value]ssa.Value
+
+func (b c18Bind) of(v ssa.Value) ssa.Value {
+	if a, ok := b[v]; ok && a != nil {
+		return a
+	}
+	return v
+}
+
+// c18ReadOnlyCallee: the value is argument #i (only) of a call to a function with a body, whose parameter #i is in turn
+// only read (readOnly decides that for the parameter).
+func c18ReadOnlyCallee(call *ssa.Call, v ssa.Value, depth int, readOnly func(ssa.Value, int) bool) bool {
+	g := staticCallee(call)
+	if g == nil || g.Blocks == nil || len(g.FreeVars) != 0 || len(g.Params) != len(call.Call.Args) || depth > 2 {
+		return false
+	}
+	idx := -1
+	for i, a := range call.Call.Args {
+		if a == v {
+			if idx >= 0 {
+				return false
+			}
+			idx = i
+		}
+	}
+	return idx >= 0 && readOnly(g.Params[idx], depth+1)
+}
+
+// c18ConstMapKeys: v is a map whose key set is always a subset of the returned constants:
+//   - a map made by the function itself (literal or make), the result of a constructor function (c18MapFromConstructor)
+//     — or (a load of) a package-level map variable that is assigned exactly once, in a package initialiser, such a map;
+//   - every insertion into that map has a key that is a string constant (or an element of another constant table), and
+//     insertions into a package-level map are made by init functions only;
+//   - the map value is otherwise only looked up, ranged over, measured or handed to a module helper that does the same
+//     with its parameter: it is never stored elsewhere or merged with another map, so there is no other way to insert
+//     a key.
+//
+// bind: v may be a parameter of the helper under analysis that stands for an argument of the call (see c18Bind).
+func c18ConstMapKeys(w *World, v ssa.Value, bind c18Bind, depth int) ([]string, bool) {
+	v = bind.of(v)
+	if depth > 3 {
+		return nil, false
+	}
+	if _, isMap := v.Type().Underlying().(*types.Map); !isMap {
+		return nil, false
+	}
+	switch x := v.(type) {
+	case *ssa.MakeMap:
+		return c18MapBuiltFromConsts(w, x, nil, nil, false, depth)
+	case *ssa.Call:
+		// a local set made by a constructor function and only read afterwards
+		if !c18MapReadOnlyUses(x, 0) {
+			return nil, false
+		}
+		return c18MapFromConstructor(w, x, depth)
+	case *ssa.UnOp:
+		g, ok := x.X.(*ssa.Global)
+		if x.Op != token.MUL || !ok || g.Pkg == nil {
+			return nil, false
+		}
+		// the language runs package initialisers once, before any other function of the package
+		isInit := func(f *ssa.Function) bool {
+			return f.Pkg == g.Pkg && f.Parent() == nil && f.Signature.Recv() == nil && (f.Name() == "init" || strings.HasPrefix(f.Name(), "init#"))
+		}
+		var initStore *ssa.Store
+		var filled []string // keys inserted by the package's init functions after the variable was assigned
+		for _, f := range w.Funcs {
+			for _, b := range f.Blocks {
+				for _, in := range b.Instrs {
+					for _, op := range in.Operands(nil) {
+						if *op != ssa.Value(g) {
+							continue
+						}
+						switch y := in.(type) {
+						case *ssa.Store:
+							if y.Addr != ssa.Value(g) || initStore != nil || !isInit(f) {
+								return nil, false
+							}
+							initStore = y
+						case *ssa.UnOp:
+							if y.Op != token.MUL {
+								return nil, false
+							}
+							if c18MapReadOnlyUses(y, 0) {
+								continue
+							}
+							// `func init() { for _, n := range list { known[n] = struct{}{} } }`: an initialiser may also insert,
+							// under the same condition on the keys
+							ks, ok := c18MapBuiltFromConsts(w, y, nil, nil, false, depth)
+							if !isInit(f) || !ok {
+								return nil, false
+							}
+							filled = append(filled, ks...)
+						default:
+							return nil, false // address taken
+						}
+					}
+				}
+			}
+		}
+		if initStore == nil {
+			return nil, false
+		}
+		switch mv := initStore.Val.(type) {
+		case *ssa.MakeMap:
+			ks, ok := c18MapBuiltFromConsts(w, mv, initStore, nil, false, depth)
+			return append(ks, filled...), ok
+		case *ssa.Call:
+			// `var known = newSet("a", "b", …)`: the constructor's result goes nowhere but into the variable
+			for _, r := range *mv.Referrers() {
+				if _, isDbg := r.(*ssa.DebugRef); !isDbg && r != ssa.Instruction(initStore) {
+					return nil, false
+				}
+			}
+			ks, ok := c18MapFromConstructor(w, mv, depth)
+			return append(ks, filled...), ok
+		}
+	}
+	return nil, false
+}
+
+// c18MapFromConstructor: the call's result is a map that the callee makes afresh in every call, fills only under keys
+// that are string constants or elements of constant tables — the callee's parameters standing for the arguments of this
+// call (`newSet("a", "b")`, `toSet(knownList)`) — and hands to nobody but its caller (c18MapBuiltFromConsts with the
+// return statements as the one permitted way out). What the caller does with it is the caller's obligation.
+func c18MapFromConstructor(w *World, call *ssa.Call, depth int) ([]string, bool) {
+	g := staticCallee(call)
+	if g == nil || g.Blocks == nil || len(g.FreeVars) != 0 || len(g.Params) != len(call.Call.Args) || g.Signature.Results().Len() != 1 || depth > 2 {
+		return nil, false
+	}
+	bind := c18Bind{}
+	for i, a := range call.Call.Args {
+		bind[g.Params[i]] = a
+	}
+	var keys []string
+	n := 0
+	for _, b := range g.Blocks {
+		r, ok := blockTerm(b).(*ssa.Return)
+		if !ok {
+			continue
+		}
+		n++
+		mm, ok := r.Results[0].(*ssa.MakeMap)
+		if !ok {
+			return nil, false
+		}
+		ks, ok := c18MapBuiltFromConsts(w, mm, nil, bind, true, depth+1)
+		if !ok {
+			return nil, false
+		}
+		keys = append(keys, ks...)
+	}
+	return keys, n > 0
+}
+
+// c18MapReadOnlyUses: the map value is only looked up, ranged over or measured.
+func c18MapReadOnlyUses(v ssa.Value, depth int) bool {
+	refs := v.Referrers()
+	if refs == nil {
+		return false
+	}
+	for _, r := range *refs {
+		switch x := r.(type) {
+		case *ssa.DebugRef, *ssa.Range:
+		case *ssa.Lookup:
+			if x.X != v || x.Index == v {
+				return false
+			}
+		case *ssa.Call:
+			if calleeName(x) != "builtin:len" && !c18ReadOnlyCallee(x, v, depth, c18MapReadOnlyUses) {
+				return false
+			}
+		default:
+			return false
+		}
+	}
+	return true
+}
+
+// c18MapBuiltFromConsts: every use of the made map is an insertion under a constant key (or an element of a constant
+// table), a read, the one store `keep` that gives the map its package-level name, or (returned) the return statement of
+// the constructor function that made it. bind: what the parameters of that constructor stand for.
+func c18MapBuiltFromConsts(w *World, mm ssa.Value, keep *ssa.Store, bind c18Bind, returned bool, depth int) ([]string, bool) {
+	if mm.Referrers() == nil {
+		return nil, false
+	}
+	keys := []string{}
+	for _, r := range *mm.Referrers() {
+		switch y := r.(type) {
+		case *ssa.DebugRef, *ssa.Range:
+		case *ssa.Return:
+			if !returned {
+				return nil, false
+			}
+		case *ssa.MapUpdate:
+			if y.Map != mm || y.Value == mm {
+				return nil, false
+			}
+			k := y.Key
+			if ct, ok := k.(*ssa.ChangeType); ok {
+				k = ct.X
+			}
+			if kc, ok := k.(*ssa.Const); ok && kc.Value != nil && kc.Value.Kind() == constant.String {
+				keys = append(keys, constant.StringVal(kc.Value))
+			} else if ks, ok := c18ElemOfConstSet(w, k, bind, depth+1); ok {
+				keys = append(keys, ks...)
+			} else {
+				return nil, false
+			}
+		case *ssa.Store:
+			if keep == nil || y != keep || y.Val != mm {
+				return nil, false
+			}
+		case *ssa.Lookup:
+			if y.X != mm {
+				return nil, false
+			}
+		case *ssa.Call:
+			if calleeName(y) != "builtin:len" && !c18ReadOnlyCallee(y, mm, 0, c18MapReadOnlyUses) {
+				return nil, false
+			}
+		default:
+			return nil, false
+		}
+	}
+	return keys, true
+}
+
+// c18ConstArray: obj is the address of an array of strings (a local or a package-level variable) whose elements are
+// always among the returned constants: the array is written only element-wise, with string constants (an array has no
+// aliases: a copy is another array), and read element-wise, as a whole value that is only indexed, or through slices that
+// are only read. "" stands for an element that is never written.
+func c18ConstArray(w *World, obj ssa.Value) ([]string, bool) {
+	pt, ok := obj.Type().Underlying().(*types.Pointer)
+	if !ok {
+		return nil, false
+	}
+	arr, ok := pt.Elem().Underlying().(*types.Array)
+	if !ok || arr.Len() > 64 {
+		return nil, false
+	}
+	if b, ok := arr.Elem().Underlying().(*types.Basic); !ok || b.Info()&types.IsString == 0 {
+		return nil, false
+	}
+	var users []ssa.Instruction
+	switch x := obj.(type) {
+	case *ssa.Alloc:
+		if x.Referrers() == nil {
+			return nil, false
+		}
+		users = *x.Referrers()
+	case *ssa.Global:
+		for _, f := range w.Funcs {
+			for _, b := range f.Blocks {
+				for _, in := range b.Instrs {
+					for _, op := range in.Operands(nil) {
+						if *op == obj {
+							users = append(users, in)
+							break
+						}
+					}
+				}
+			}
+		}
+	default:
+		return nil, false
+	}
+	out := []string{}
+	written := map[int64]bool{}
+	for _, in := range users {
+		switch x := in.(type) {
+		case *ssa.DebugRef:
+		case *ssa.IndexAddr:
+			if x.X != obj || x.Referrers() == nil {
+				return nil, false
+			}
+			for _, rr := range *x.Referrers() {
+				switch y := rr.(type) {
+				case *ssa.DebugRef:
+				case *ssa.UnOp:
+					if y.Op != token.MUL {
+						return nil, false
+					}
+				case *ssa.Store:
+					kc, isK := y.Val.(*ssa.Const)
+					if y.Addr != ssa.Value(x) || !isK || kc.Value == nil || kc.Value.Kind() != constant.String {
+						return nil, false
+					}
+					out = append(out, constant.StringVal(kc.Value))
+					if ic, isC := x.Index.(*ssa.Const); isC && ic.Value != nil {
+						if idx, exact := constant.Int64Val(constant.ToInt(ic.Value)); exact {
+							written[idx] = true
+						}
+					}
+				default:
+					return nil, false
+				}
+			}
+		case *ssa.Slice:
+			if x.X != obj || !c18ReadOnlyUses(x, 0) {
+				return nil, false
+			}
+		case *ssa.UnOp:
+			// the array as a value: only indexed
+			if x.Op != token.MUL || x.X != obj || x.Referrers() == nil {
+				return nil, false
+			}
+			for _, rr := range *x.Referrers() {
+				switch y := rr.(type) {
+				case *ssa.DebugRef:
+				case *ssa.Index:
+					if y.X != ssa.Value(x) {
+						return nil, false
+					}
+				default:
+					return nil, false
+				}
+			}
+		default:
+			return nil, false
+		}
+	}
+	if int64(len(written)) < arr.Len() {
+		out = append(out, "")
+	}
+	return out, true
+}
+
+// c18ConstSet: the constants a table (slice, map, or array given by value) can hold.
+func c18ConstSet(w *World, v ssa.Value, bind c18Bind, depth int) ([]string, bool) {
+	v = bind.of(v)
+	switch v.Type().Underlying().(type) {
+	case *types.Map:
+		return c18ConstMapKeys(w, v, nil, depth)
+	case *types.Slice:
+		return c18ConstStringList(w, v, nil)
+	case *types.Array:
+		if u, ok := v.(*ssa.UnOp); ok && u.Op == token.MUL {
+			return c18ConstArray(w, u.X)
+		}
+	}
+	return nil, false
+}
+
+// c18ElemOfConstSet: whenever v is evaluated it is one of the returned constants: an element read from a constant
+// list or array (at any index), or the key that a `range` over a constant map yields.
+func c18ElemOfConstSet(w *World, v ssa.Value, bind c18Bind, depth int) ([]string, bool) {
+	if depth > 3 {
+		return nil, false
+	}
+	if ct, ok := v.(*ssa.ChangeType); ok {
+		v = ct.X
+	}
+	switch x := v.(type) {
+	case *ssa.UnOp:
+		if ia, ok := x.X.(*ssa.IndexAddr); ok && x.Op == token.MUL {
+			if _, isPtr := ia.X.Type().Underlying().(*types.Pointer); isPtr {
+				return c18ConstArray(w, ia.X)
+			}
+			return c18ConstSet(w, ia.X, bind, depth)
+		}
+	case *ssa.Index:
+		return c18ConstSet(w, x.X, bind, depth)
+	case *ssa.Extract:
+		if nx, ok := x.Tuple.(*ssa.Next); ok && x.Index == 1 && !nx.IsString {
+			if rg, ok := nx.Iter.(*ssa.Range); ok {
+				return c18ConstMapKeys(w, rg.X, bind, depth)
+			}
+		}
+	}
+	return nil, false
+}
+
+// c18IndexTest: `slices.Index(<constant list>, key)` compared with 0 / -1 so that cond == truth means "found".
+func c18IndexTest(w *World, x *ssa.BinOp, truth bool, isKey func(ssa.Value) bool, bind c18Bind) ([]string, bool) {
+	call, ok := x.X.(*ssa.Call)
+	k, isK := x.Y.(*ssa.Const)
+	if !ok || !isK || k.Value == nil || k.Value.Kind() != constant.Int || calleeName(call) != "slices.Index" || len(call.Call.Args) != 2 || !isKey(call.Call.Args[1]) {
+		return nil, false
+	}
+	n, exact := constant.Int64Val(k.Value)
+	if !exact {
+		return nil, false
+	}
+	found := false
+	switch {
+	case x.Op == token.GEQ && n == 0, x.Op == token.GTR && n == -1, x.Op == token.NEQ && n == -1:
+		found = truth
+	case x.Op == token.LSS && n == 0, x.Op == token.LEQ && n == -1, x.Op == token.EQL && n == -1:
+		found = !truth
+	}
+	if !found {
+		return nil, false
+	}
+	return c18ConstStringList(w, call.Call.Args[0], bind)
+}
+
+// ---------- flag variables ----------------------------------------------------------------------------------------------
+//
+// "Is the key a known one" may be decided by the branch that acts on it (`if key == "a" { continue }`) or be recorded in
+// a boolean first and acted upon later (`known := false; for _, n := range table { if n == key { known = true } }; if
+// !known { report }`). c18KeyEdges computes, for a REGION of a function during which the key does not change (one
+// iteration of the loop over the map; one call of a predicate), the branch edges E on which the key is known to be one
+// of a set of constants:
+//
+//	(E1) edges whose condition says so directly (c18IsOneOfConsts);
+//	(E2) edges `flag == want` where the flag is known to differ from `want` unless an edge of E has been passed since the
+//	     region was entered: the flag is the constant !want, a condition of (E1) (`known := key == "a"`), the negation of
+//	     such a flag, or a phi of the region all of whose operands that arrive over an OPEN edge (one that can be reached
+//	     from the region's start without passing an edge of E) are such flags.
+//
+// Soundness of (E2), by induction on the length of the execution since the region was entered: a phi of the region takes
+// its value when control enters its block; if no edge of E has been passed by then, control came in over an open edge,
+// whose operand is a flag that (induction) differs from `want` at that moment. A phi must belong to the region and must
+// not sit in the region's first block (whose incoming edge comes from outside): every block of a loop body is executed
+// anew in each iteration before any use of its values in that iteration (the header dominates it and is not passed
+// inside an iteration), so no value of an earlier iteration (earlier key) is read; a flag declared outside the loop
+// arrives through a phi of the loop HEADER, which is not in the region and is therefore not accepted.
+// "An edge of E has been passed" is a fact about the key (it is one of the constants), which stays true for the rest of
+// the region since the key does not change.
+// While the claim of an edge e = `flag == want` is being proved, e itself is counted among E (see c18KeyEdges): e is
+// taken only when flag == want, so it cannot be the first edge of E ∪ {e} to be passed.
+
+type c18Region struct {
+	w     *World
+	fn    *ssa.Function
+	start *ssa.BasicBlock
+	stop  *ssa.BasicBlock // not entered (the loop header); nil: none
+	in    func(*ssa.BasicBlock) bool
+	isKey func(ssa.Value) bool
+	bind  c18Bind // tables the region receives as parameters: the arguments of the call under analysis
+	depth int
+	edges map[edgeKey][]string // E, with the constants of each edge
+	open  map[edgeKey]bool
+	reach map[int]bool // blocks reachable from start over open edges (start included)
+}
+
+func c18KeyEdges(w *World, fn *ssa.Function, start, stop *ssa.BasicBlock, in func(*ssa.BasicBlock) bool, isKey func(ssa.Value) bool, bind c18Bind, depth int) *c18Region {
+	r := &c18Region{w: w, fn: fn, start: start, stop: stop, in: in, isKey: isKey, bind: bind, depth: depth, edges: map[edgeKey][]string{}}
+	branches := func(visit func(b *ssa.BasicBlock, cond ssa.Value)) {
+		for _, b := range fn.Blocks {
+			if iff, ok := blockTerm(b).(*ssa.If); ok && len(b.Succs) == 2 && b.Succs[0] != b.Succs[1] {
+				visit(b, iff.Cond)
+			}
+		}
+	}
+	branches(func(b *ssa.BasicBlock, cond ssa.Value) {
+		for j := 0; j < 2; j++ {
+			if ks, ok := c18IsOneOfConsts(w, cond, j == 0, isKey, bind, depth); ok {
+				r.edges[edgeKey{b.Index, j}] = ks
+			}
+		}
+	})
+	for round := 0; round < 3; round++ {
+		r.computeOpen()
+		changed := false
+		branches(func(b *ssa.BasicBlock, cond ssa.Value) {
+			if !r.reach[b.Index] {
+				return
+			}
+			if !c18IsFlag(cond) {
+				return
+			}
+			for j := 0; j < 2; j++ {
+				e := edgeKey{b.Index, j}
+				if _, has := r.edges[e]; has {
+					continue
+				}
+				// the edge under test is itself taken only when flag == want: it may be counted among E while its own
+				// claim is proved (`found = found || n == key`: the phi after the || receives the constant true over the
+				// edge `found is true`). If it were the first edge of E ∪ {e} to be passed, the flag would have been != want
+				// just before (induction hypothesis) and the branch would not have taken it.
+				r.edges[e] = nil
+				r.computeOpen()
+				if ks, ok := r.flag(cond, j == 0); ok {
+					r.edges[e] = append([]string{}, ks...)
+					changed = true
+				} else {
+					delete(r.edges, e)
+				}
+				r.computeOpen()
+			}
+		})
+		if !changed {
+			break
+		}
+	}
+	r.computeOpen()
+	return r
+}
+
+// c18StripNot reduces `!x`, `x == true`, `x != false` (→ x) and `x == false`, `x != true` (→ !x): the condition and the
+// truth value under which the original one holds.
+func c18StripNot(cond ssa.Value, truth bool) (ssa.Value, bool) {
+	for i := 0; i < 8; i++ {
+		switch x := cond.(type) {
+		case *ssa.UnOp:
+			if x.Op == token.NOT {
+				cond, truth = x.X, !truth
+				continue
+			}
+		case *ssa.BinOp:
+			if x.Op == token.EQL || x.Op == token.NEQ {
+				other, k := x.X, x.Y
+				if _, isK := k.(*ssa.Const); !isK {
+					other, k = x.Y, x.X
+				}
+				if kc, isK := k.(*ssa.Const); isK && kc.Value != nil && kc.Value.Kind() == constant.Bool {
+					if constant.BoolVal(kc.Value) != (x.Op == token.EQL) {
+						truth = !truth
+					}
+					cond = other
+					continue
+				}
+			}
+		}
+		break
+	}
+	return cond, truth
+}
+
+// c18IsFlag: the condition is a merged boolean (possibly negated), not a test written at the branch.
+func c18IsFlag(cond ssa.Value) bool {
+	cond, _ = c18StripNot(cond, true)
+	_, isPhi := cond.(*ssa.Phi)
+	return isPhi
+}
+
+func (r *c18Region) computeOpen() {
+	r.open = map[edgeKey]bool{}
+	r.reach = map[int]bool{r.start.Index: true}
+	stack := []*ssa.BasicBlock{r.start}
+	for len(stack) > 0 {
+		b := stack[len(stack)-1]
+		stack = stack[:len(stack)-1]
+		for j, s := range b.Succs {
+			e := edgeKey{b.Index, j}
+			if _, isE := r.edges[e]; isE {
+				continue
+			}
+			r.open[e] = true
+			if s != r.stop && !r.reach[s.Index] {
+				r.reach[s.Index] = true
+				stack = append(stack, s)
+			}
+		}
+	}
+}
+
+// flag: v == want only if the key is one of the returned constants (see (E2)).
+func (r *c18Region) flag(v ssa.Value, want bool) ([]string, bool) {
+	type goal struct {
+		ph   *ssa.Phi
+		want bool
+	}
+	assumed := map[goal]bool{}
+	consts := []string{}
+	var safe func(v ssa.Value, want bool, d int) bool
+	safe = func(v ssa.Value, want bool, d int) bool {
+		if d > 10 {
+			return false
+		}
+		v, want = c18StripNot(v, want)
+		switch x := v.(type) {
+		case *ssa.Const:
+			return x.Value != nil && x.Value.Kind() == constant.Bool && constant.BoolVal(x.Value) != want
+		case *ssa.Phi:
+			if assumed[goal{x, want}] {
+				return true // the induction hypothesis
+			}
+			if !r.in(x.Block()) || x.Block() == r.stop || x.Block() == r.start {
+				return false // not (re-)evaluated inside the region, or entered from outside it
+			}
+			assumed[goal{x, want}] = true
+			for i, e := range x.Edges {
+				p := x.Block().Preds[i]
+				isOpen := false
+				for j, s := range p.Succs {
+					if s == x.Block() && r.open[edgeKey{p.Index, j}] {
+						isOpen = true
+					}
+				}
+				if isOpen && !safe(e, want, d+1) {
+					return false
+				}
+			}
+			return true
+		}
+		if ks, ok := c18IsOneOfConsts(r.w, v, want, r.isKey, r.bind, r.depth); ok {
+			consts = append(consts, ks...)
+			return true
+		}
+		return false
+	}
+	if !safe(v, want, 0) {
+		return nil, false
+	}
+	return consts, true
 }
 
 // ---------- the unknown-field scan: filter while collecting ------------------------------------------------------------
@@ -636,8 +1358,9 @@ func c18ReportedMaps(w *World, v ssa.Value, out map[ssa.Value]string, depth int)
 //	(L1) G has a `range` loop over the map;
 //	(L2) the loop is left only through its header (no break / return / goto out of the body): every key gets an iteration;
 //	(L3) the body has append sites whose appended elements include the range key;
-//	(L4) an iteration that reaches the next one without passing such a site has passed the true edge of
-//	     `key == <string constant>` (or of slices.Contains(<constant list>, key)): the key is one of the constants F;
+//	(L4) an iteration that reaches the next one without passing such a site has passed an edge on which the key is known
+//	     to be one of a set of string constants F: the true edge of `key == <string constant>`, of a membership test of
+//	     the key in a constant table (c18IsOneOfConsts), or of a flag that records such a test (c18KeyEdges);
 //	(L5) what those sites appended is still in the slice returned: a forward must-analysis over G keeps, per program
 //	     point, the set S of slice values that were obtained from the result of the LATEST site execution by growth steps
 //	     only (append with the value as base or as spread operand, phi selecting such a value, slices.AppendSeq/Grow/Clip);
@@ -656,13 +1379,13 @@ type c18Collect struct {
 	why    string
 }
 
-func c18KeyCollector(w *World, G *ssa.Function, isM func(ssa.Value) bool) c18Collect {
+func c18KeyCollector(w *World, G *ssa.Function, isM func(ssa.Value) bool, bind c18Bind) c18Collect {
 	last := c18Collect{why: "no range loop over the map"}
 	for _, rl := range rangeLoops(G) {
 		if _, isMap := rl.X.Type().Underlying().(*types.Map); !isMap || !isM(rl.X) {
 			continue
 		}
-		last = c18CollectLoop(w, G, rl)
+		last = c18CollectLoop(w, G, rl, bind)
 		if last.ok {
 			return last
 		}
@@ -705,44 +1428,69 @@ func c18AppendsKey(call *ssa.Call, rl rangeLoop) bool {
 	return false
 }
 
-// c18KeyIsConst: cond evaluating to truth means "the range key of rl is one of the returned string constants".
-func c18KeyIsConst(w *World, cond ssa.Value, truth bool, rl rangeLoop) ([]string, bool) {
-	return c18IsOneOfConsts(w, cond, truth, func(v ssa.Value) bool { return c18IsRangeKey(v, rl) }, 0)
-}
-
 // c18IsOneOfConsts: cond evaluating to truth means "the value recognised by isKey is one of the returned string
-// constants": `key == "c"`, `key != "c"` negated, slices.Contains(<constant list>, key), or a module predicate p(key)
-// that returns true only for constants (c18PredicateConsts).
-func c18IsOneOfConsts(w *World, cond ssa.Value, truth bool, isKey func(ssa.Value) bool, depth int) ([]string, bool) {
-	for {
-		u, ok := cond.(*ssa.UnOp)
-		if !ok || u.Op != token.NOT {
-			break
-		}
-		truth = !truth
-		cond = u.X
-	}
+// constants": `key == "c"`, `key != "c"` negated, `key == <element of a constant table>` (the comparison of a hand-written
+// search loop), slices.Contains / slices.Index / slices.BinarySearch over a constant list, a lookup of the key in a constant
+// map (`_, ok := table[key]`, or `table[key]` of a bool-valued set: true only for a key that is in the map), or a module
+// predicate p(key) that returns true only for constants (c18PredicateConsts). The key itself must be the operand: a
+// transformed key (lower-cased, trimmed) is not recognised — the alternative spellings of a known key are unknown keys.
+func c18IsOneOfConsts(w *World, cond ssa.Value, truth bool, isKey func(ssa.Value) bool, bind c18Bind, depth int) ([]string, bool) {
+	cond, truth = c18StripNot(cond, truth)
 	switch x := cond.(type) {
 	case *ssa.BinOp:
+		if ks, ok := c18IndexTest(w, x, truth, isKey, bind); ok {
+			return ks, true
+		}
 		if (x.Op != token.EQL && x.Op != token.NEQ) || (x.Op == token.EQL) != truth {
 			return nil, false
 		}
-		var k *ssa.Const
+		var other ssa.Value
 		if isKey(x.X) {
-			k, _ = x.Y.(*ssa.Const)
+			other = x.Y
 		} else if isKey(x.Y) {
-			k, _ = x.X.(*ssa.Const)
+			other = x.X
 		}
-		if k == nil || k.Value == nil || k.Value.Kind() != constant.String {
+		if other == nil {
 			return nil, false
 		}
-		return []string{constant.StringVal(k.Value)}, true
+		if k, isK := other.(*ssa.Const); isK {
+			if k.Value == nil || k.Value.Kind() != constant.String {
+				return nil, false
+			}
+			return []string{constant.StringVal(k.Value)}, true
+		}
+		return c18ElemOfConstSet(w, other, bind, 0)
+	case *ssa.Extract:
+		// the ok half of a comma-ok lookup in a constant map; the found half of a binary search in a constant list
+		// (found means list[i] == key for the i returned, whether or not the list is sorted)
+		if !truth || x.Index != 1 {
+			return nil, false
+		}
+		switch t := x.Tuple.(type) {
+		case *ssa.Lookup:
+			if t.CommaOk && isKey(t.Index) {
+				return c18ConstMapKeys(w, t.X, bind, 0)
+			}
+		case *ssa.Call:
+			if calleeName(t) == "slices.BinarySearch" && len(t.Call.Args) == 2 && isKey(t.Call.Args[1]) {
+				return c18ConstStringList(w, t.Call.Args[0], bind)
+			}
+		}
+	case *ssa.Lookup:
+		// a bool-valued set: table[key] is true only if the key is in the map
+		if !truth || x.CommaOk || !isKey(x.Index) {
+			return nil, false
+		}
+		if b, isB := x.Type().Underlying().(*types.Basic); !isB || b.Kind() != types.Bool {
+			return nil, false
+		}
+		return c18ConstMapKeys(w, x.X, bind, 0)
 	case *ssa.Call:
 		if !truth {
 			return nil, false
 		}
 		if calleeName(x) == "slices.Contains" && len(x.Call.Args) == 2 && isKey(x.Call.Args[1]) {
-			return c18ConstStringList(w, x.Call.Args[0])
+			return c18ConstStringList(w, x.Call.Args[0], bind)
 		}
 		if g := staticCallee(x); g != nil && w.IsProductFn(g) && g.Blocks != nil && len(g.FreeVars) == 0 && depth < 2 {
 			idx := -1
@@ -754,8 +1502,16 @@ func c18IsOneOfConsts(w *World, cond ssa.Value, truth bool, isKey func(ssa.Value
 					idx = i
 				}
 			}
-			if idx >= 0 && idx < len(g.Params) {
-				return c18PredicateConsts(w, g, idx, depth+1)
+			if idx >= 0 && len(x.Call.Args) == len(g.Params) {
+				// the other arguments are what the predicate's other parameters stand for during this call: a table
+				// handed to the predicate (`contains(known, key)`, `known.has(key)`) is judged as the caller's table
+				inner := c18Bind{}
+				for i, a := range x.Call.Args {
+					if i != idx {
+						inner[g.Params[i]] = bind.of(a)
+					}
+				}
+				return c18PredicateConsts(w, g, idx, inner, depth+1)
 			}
 		}
 	}
@@ -763,72 +1519,28 @@ func c18IsOneOfConsts(w *World, cond ssa.Value, truth bool, isKey func(ssa.Value
 }
 
 // c18PredicateConsts: the module predicate g returns true ONLY when its parameter #idx is one of the returned string
-// constants. Decided on g's CFG: E = the branch edges on which the parameter is known to be one of the constants
-// (c18IsOneOfConsts on the branch condition). A return that can be reached without an edge of E must return a value
+// constants. Decided on g's CFG with the whole call as the region (c18KeyEdges): E = the branch edges on which the
+// parameter is known to be one of the constants. A return that can be reached without an edge of E must return a value
 // that is itself false unless the parameter is a constant: the constant false, a comparison param == "c" (or another
-// recognised condition), or a phi each of whose operands is such a value or arrives over an edge that cannot be reached
-// without an edge of E.
-func c18PredicateConsts(w *World, g *ssa.Function, idx int, depth int) ([]string, bool) {
+// recognised condition), or a flag in the sense of (E2).
+func c18PredicateConsts(w *World, g *ssa.Function, idx int, bind c18Bind, depth int) ([]string, bool) {
 	if g.Signature.Results().Len() != 1 || !types.Identical(g.Signature.Results().At(0).Type().Underlying(), types.Typ[types.Bool]) {
 		return nil, false
 	}
 	param := ssa.Value(g.Params[idx])
+	// the parameter must not be reassigned through its address (it then lives in an Alloc and is not `param` anyway)
 	isKey := func(v ssa.Value) bool {
 		if ct, ok := v.(*ssa.ChangeType); ok {
 			v = ct.X
 		}
 		return v == param
 	}
+	reg := c18KeyEdges(w, g, g.Blocks[0], nil, func(*ssa.BasicBlock) bool { return true }, isKey, bind, depth)
 	var consts []string
-	reachB := map[int]bool{0: true}
-	reachE := map[edgeKey]bool{}
-	stack := []*ssa.BasicBlock{g.Blocks[0]}
-	for len(stack) > 0 {
-		b := stack[len(stack)-1]
-		stack = stack[:len(stack)-1]
-		iff, isIf := blockTerm(b).(*ssa.If)
-		for j, s := range b.Succs {
-			if isIf && len(b.Succs) == 2 && b.Succs[0] != b.Succs[1] {
-				if ks, ok := c18IsOneOfConsts(w, iff.Cond, j == 0, isKey, depth); ok {
-					consts = append(consts, ks...)
-					continue
-				}
-			}
-			reachE[edgeKey{b.Index, j}] = true
-			if !reachB[s.Index] {
-				reachB[s.Index] = true
-				stack = append(stack, s)
-			}
-		}
-	}
-	var safe func(v ssa.Value, d int) bool
-	safe = func(v ssa.Value, d int) bool {
-		if d > 6 {
-			return false
-		}
-		if k, ok := v.(*ssa.Const); ok {
-			return k.Value != nil && k.Value.Kind() == constant.Bool && !constant.BoolVal(k.Value)
-		}
-		if ph, ok := v.(*ssa.Phi); ok {
-			for i, e := range ph.Edges {
-				p := ph.Block().Preds[i]
-				open := false
-				for j, s := range p.Succs {
-					if s == ph.Block() && reachE[edgeKey{p.Index, j}] {
-						open = true
-					}
-				}
-				if open && !safe(e, d+1) {
-					return false
-				}
-			}
-			return true
-		}
-		if ks, ok := c18IsOneOfConsts(w, v, true, isKey, depth); ok {
+	for e, ks := range reg.edges {
+		if reg.reach[e.b] {
 			consts = append(consts, ks...)
-			return true
 		}
-		return false
 	}
 	n := 0
 	for _, b := range g.Blocks {
@@ -837,14 +1549,23 @@ func c18PredicateConsts(w *World, g *ssa.Function, idx int, depth int) ([]string
 			continue
 		}
 		n++
-		if reachB[b.Index] && (len(r.Results) != 1 || !safe(r.Results[0], 0)) {
+		if !reg.reach[b.Index] {
+			continue
+		}
+		if len(r.Results) != 1 {
 			return nil, false
 		}
+		ks, ok := reg.flag(r.Results[0], true)
+		if !ok {
+			return nil, false
+		}
+		consts = append(consts, ks...)
 	}
+	sort.Strings(consts)
 	return consts, n > 0
 }
 
-func c18CollectLoop(w *World, G *ssa.Function, rl rangeLoop) c18Collect {
+func c18CollectLoop(w *World, G *ssa.Function, rl rangeLoop, bind c18Bind) c18Collect {
 	lb := loopBlocks(rl.Header)
 	// (L2)
 	for bi := range lb {
@@ -875,8 +1596,9 @@ func c18CollectLoop(w *World, G *ssa.Function, rl rangeLoop) c18Collect {
 	if len(sites) == 0 {
 		return c18Collect{why: "the loop over the map does not append its key"}
 	}
-	// (L4)
+	// (L4): the region is one iteration of the loop (the key is the same value from the body's first block to the header)
 	var filter []string
+	reg := c18KeyEdges(w, G, rl.Body, rl.Header, func(b *ssa.BasicBlock) bool { return lb[b.Index] && b != rl.Header }, func(v ssa.Value) bool { return c18IsRangeKey(v, rl) }, bind, 0)
 	seen := map[int]bool{rl.Body.Index: true}
 	stack := []*ssa.BasicBlock{rl.Body}
 	for len(stack) > 0 {
@@ -885,16 +1607,13 @@ func c18CollectLoop(w *World, G *ssa.Function, rl rangeLoop) c18Collect {
 		if siteBlock[b.Index] {
 			continue // the key has been appended on this path
 		}
-		iff, isIf := blockTerm(b).(*ssa.If)
 		for j, s := range b.Succs {
-			if isIf && len(b.Succs) == 2 && b.Succs[0] != b.Succs[1] {
-				if ks, ok := c18KeyIsConst(w, iff.Cond, j == 0, rl); ok {
-					filter = append(filter, ks...)
-					continue // on this edge the key is one of the constants
-				}
+			if ks, ok := reg.edges[edgeKey{b.Index, j}]; ok {
+				filter = append(filter, ks...)
+				continue // on this edge the key is one of the constants
 			}
 			if s == rl.Header {
-				return c18Collect{why: "an iteration can skip the append at " + w.InstrPos(blockTerm(b)) + " without the key having been compared equal to a constant: some keys are not reported"}
+				return c18Collect{why: "an iteration can skip the append at " + w.InstrPos(blockTerm(b)) + " without the key having been compared equal to a constant or found in a constant table: some keys are not reported"}
 			}
 			if !seen[s.Index] {
 				seen[s.Index] = true
@@ -902,7 +1621,8 @@ func c18CollectLoop(w *World, G *ssa.Function, rl rangeLoop) c18Collect {
 			}
 		}
 	}
-	// (L6)
+	// (L6) — except over an edge on which the map is known to be empty (`if len(m) == 0 { return nil }`): with no keys there
+	// is nothing to report for this map, and whatever such a return hands back is still held to (L5)
 	{
 		seen := map[int]bool{0: true}
 		stack := []*ssa.BasicBlock{G.Blocks[0]}
@@ -912,8 +1632,12 @@ func c18CollectLoop(w *World, G *ssa.Function, rl rangeLoop) c18Collect {
 			if _, isRet := blockTerm(b).(*ssa.Return); isRet {
 				return c18Collect{why: "the return at " + w.InstrPos(blockTerm(b)) + " is reachable without running the loop over the map"}
 			}
+			iff, isIf := blockTerm(b).(*ssa.If)
 			for j, s := range b.Succs {
 				if b == rl.Header && j == 1 {
+					continue
+				}
+				if isIf && len(b.Succs) == 2 && b.Succs[0] != b.Succs[1] && c18SaysEmpty(iff.Cond, j == 0, rl.X) {
 					continue
 				}
 				if !seen[s.Index] {
@@ -928,6 +1652,64 @@ func c18CollectLoop(w *World, G *ssa.Function, rl rangeLoop) c18Collect {
 		return c18Collect{why: why}
 	}
 	return c18Collect{ok: true, filter: filter}
+}
+
+// c18SaysEmpty: cond evaluating to truth means the map m (the very SSA value the loop ranges over, or another load of
+// the same variable with no store in between is NOT assumed: only the same value counts) has no keys: `len(m) == 0`,
+// `len(m) < 1`, `m == nil`, and their negations on the other edge.
+func c18SaysEmpty(cond ssa.Value, truth bool, m ssa.Value) bool {
+	for {
+		u, ok := cond.(*ssa.UnOp)
+		if !ok || u.Op != token.NOT {
+			break
+		}
+		truth = !truth
+		cond = u.X
+	}
+	bo, ok := cond.(*ssa.BinOp)
+	if !ok {
+		return false
+	}
+	if (bo.X == m && isNilConst(bo.Y)) || (bo.Y == m && isNilConst(bo.X)) {
+		return (bo.Op == token.EQL && truth) || (bo.Op == token.NEQ && !truth)
+	}
+	isLen := func(v ssa.Value) bool {
+		call, ok := v.(*ssa.Call)
+		return ok && calleeName(call) == "builtin:len" && len(call.Call.Args) == 1 && call.Call.Args[0] == m
+	}
+	intOf := func(v ssa.Value) (int64, bool) {
+		k, ok := v.(*ssa.Const)
+		if !ok || k.Value == nil || k.Value.Kind() != constant.Int {
+			return 0, false
+		}
+		return constant.Int64Val(k.Value)
+	}
+	op, x, y := bo.Op, bo.X, bo.Y
+	if isLen(y) {
+		// mirror: c OP len(m)  ≡  len(m) OP' c
+		x, y = y, x
+		switch op {
+		case token.LSS:
+			op = token.GTR
+		case token.GTR:
+			op = token.LSS
+		case token.LEQ:
+			op = token.GEQ
+		case token.GEQ:
+			op = token.LEQ
+		}
+	}
+	n, isInt := intOf(y)
+	if !isLen(x) || !isInt {
+		return false
+	}
+	switch {
+	case op == token.EQL && n == 0, op == token.LEQ && n == 0, op == token.LSS && n == 1:
+		return truth
+	case op == token.NEQ && n == 0, op == token.GTR && n == 0, op == token.GEQ && n == 1:
+		return !truth
+	}
+	return false
 }
 
 // c18AccSet: a set of slice values; top = "no site has run yet": every value qualifies.
